@@ -60,6 +60,29 @@ Theorem C20_server_respond_too_long : forall cfg id n, name_ok n = true -> 0 <= 
 Proof. exact server_respond_too_long. Qed.
 Print Assumptions C20_server_respond_too_long.
 
+(* liveness, canonical round: in any reachable state, a waiting lookup of such a name returns the
+   server's address after at most two further labels (its query leaves, the reply leaves), whatever
+   else is in flight - provided the accept loop has not ended (DnsServer::new(n) counts
+   connections) and the client has a port left *)
+Theorem C20_progress : forall cfg tr st c h l, records_ok cfg = true -> run cfg tr st ->
+  (forall c h n, In (EvL c h n) tr -> good3 cfg n = true) ->
+  find_look h (c_looks (getc st c)) = Some l ->
+  s_accepted st < conn_limit cfg ->
+  (exists p, 49152 <= p <= 65535 /\ find_sock p (c_socks (getc st c)) = None) ->
+  exists evs a st', (length evs <= 2)%nat /\
+    run cfg (tr ++ evs ++ [EvR c h (l_name l) a]) st' /\
+    tbl_get (server_table cfg) (l_name l) = Some a.
+Proof. exact progress_run. Qed.
+Print Assumptions C20_progress.
+Theorem C20_progress_example :
+  let cfg := as_is [([97; 46; 98], [10; 0; 0; 1])] 1 in
+  let n := [97; 46; 98] in
+  exists st, run cfg [EvL 0 0 n] st /\ good3 cfg n = true /\
+    find_look 0 (c_looks (getc st 0)) = Some (mkLookup 0 n Miss) /\
+    s_accepted st < conn_limit cfg /\ find_sock 49152 (c_socks (getc st 0)) = None.
+Proof. exact progress_example. Qed.
+Print Assumptions C20_progress_example.
+
 (* REFUTED on the tree as it is: a registered 25-byte name; its first query kills the process
    (dns_server.rs l.61), and no run ever resolves a name of 25 bytes or more *)
 Theorem C20_answer_refuted_long_name :
